@@ -673,6 +673,42 @@ class _RowEncoder(NamedTuple):
     types: tuple[pa.DataType, ...]
     nulls: tuple["pa.Array[Any]", ...]
     """A length-1 all-null array per column, reused for every unset field."""
+    dictionary_free_types: tuple[pa.DataType | None, ...] = ()
+    """Per column: its type with dictionaries decoded, when it nests one; else ``None``.
+
+    Only set for a nested column that holds a dictionary-encoded field
+    somewhere inside.  ``_serialize`` uses it to rebuild such a column when
+    pyarrow's direct conversion produced an invalid dictionary index.
+    """
+
+
+def _without_dictionaries(arrow_type: pa.DataType) -> pa.DataType:
+    """Return *arrow_type* with every dictionary type replaced by its value type.
+
+    Recurses through struct, list and map types; any other type is returned
+    unchanged.
+
+    Args:
+        arrow_type: The Arrow type to rewrite.
+
+    Returns:
+        The rewritten type (equal to *arrow_type* when it holds no dictionary).
+
+    """
+    if isinstance(arrow_type, pa.DictionaryType):
+        value_type: pa.DataType = arrow_type.value_type
+        return value_type
+    if isinstance(arrow_type, pa.StructType):
+        return pa.struct([f.with_type(_without_dictionaries(f.type)) for f in arrow_type])
+    if isinstance(arrow_type, pa.MapType):
+        key_field = arrow_type.key_field.with_type(_without_dictionaries(arrow_type.key_type))
+        item_field = arrow_type.item_field.with_type(_without_dictionaries(arrow_type.item_type))
+        # pyarrow accepts fields here (keeps item nullability); its stubs only list types.
+        map_type: pa.DataType = pa.map_(key_field, item_field, keys_sorted=arrow_type.keys_sorted)  # type: ignore[call-overload]
+        return map_type
+    if isinstance(arrow_type, pa.ListType):
+        return pa.list_(arrow_type.value_field.with_type(_without_dictionaries(arrow_type.value_type)))
+    return arrow_type
 
 
 def _row_encoder(cls: "type[ArrowSerializableDataclass]") -> _RowEncoder:
@@ -700,11 +736,16 @@ def _row_encoder(cls: "type[ArrowSerializableDataclass]") -> _RowEncoder:
         return cast("_RowEncoder", cached)
     schema = cls.ARROW_SCHEMA
     types = tuple(field.type for field in schema)
+    dictionary_free_types: list[pa.DataType | None] = []
+    for arrow_type in types:
+        decoded = _without_dictionaries(arrow_type) if pa.types.is_nested(arrow_type) else arrow_type
+        dictionary_free_types.append(None if decoded == arrow_type else decoded)
     encoder = _RowEncoder(
         schema=schema,
         names=tuple(schema.names),
         types=types,
         nulls=tuple(pa.nulls(1, type=arrow_type) for arrow_type in types),
+        dictionary_free_types=tuple(dictionary_free_types),
     )
     cls._cached_row_encoder = encoder
     return encoder
@@ -1328,8 +1369,40 @@ class ArrowSerializableDataclass:
             if value is None:
                 arrays.append(encoder.nulls[index])
             else:
-                arrays.append(pa.array([value], type=encoder.types[index]))
+                arrays.append(self._encode_column(value, encoder.types[index], encoder.dictionary_free_types[index]))
         return pa.RecordBatch.from_arrays(arrays, schema=encoder.schema)
+
+    @staticmethod
+    def _encode_column(
+        value: object, arrow_type: pa.DataType, dictionary_free_type: pa.DataType | None
+    ) -> "pa.Array[Any]":
+        """Convert one field value to a length-1 array of *arrow_type*.
+
+        A null struct nested inside the value makes pyarrow append a
+        placeholder to each of the struct's children.  For a
+        dictionary-encoded child (an ``Enum`` field) the placeholder is index
+        0, which is out of bounds when nothing else in the column put an entry
+        into the dictionary — the batch then fails full validation in every
+        reader, including our own.  Such a column is rebuilt with the
+        dictionaries decoded and cast back, which yields valid indices.
+
+        Args:
+            value: The converted (``_to_row_dict``) field value; not ``None``.
+            arrow_type: The column's Arrow type.
+            dictionary_free_type: *arrow_type* with dictionaries decoded when
+                the column nests one, else ``None`` (no check needed).
+
+        Returns:
+            The length-1 array for the column.
+
+        """
+        array: pa.Array[Any] = pa.array([value], type=arrow_type)
+        if dictionary_free_type is not None:
+            try:
+                array.validate(full=True)
+            except pa.ArrowInvalid:
+                array = pa.array([value], type=dictionary_free_type).cast(arrow_type)
+        return array
 
     def serialize(self, dest: IOBase) -> None:
         """Serialize this instance to an Arrow IPC stream.
